@@ -31,7 +31,7 @@ CLAIMED.update({
             "7 C04"),
     "C06": ("Coq proof (guard semantics over Q, partition of adjacent windows by induction) + correspondence + probe oracle",
             "Theorems in Props/C06.v: the generated assignment, with k[] initialised to 0, equals the rate expression iff Tmin <= T < Tmax (non-positive bound = unbounded) and 0 otherwise; adjacent positive boundaries give exactly one active reaction on [b0, bn) boundaries included; a rate modifier drops the guard. Tied to _assign_rates, the rendered EvalRates of all back-ends and the presence/position of the zero initialiser in every Fex/Jac.",
-            "Temperatures are exact rationals; the C-level zero initialisation is checked textually in every rendered source and by running the compiled Odeint and CVODE-dense right-hand sides at a sequence of temperatures in one process against fresh processes (stand-in headers trusted).",
+            "Temperatures are exact rationals; the C-level zero initialisation is checked textually in every rendered source and by running the compiled Odeint and CVODE-dense right-hand sides at a sequence of temperatures in one process against fresh processes, and by calling the compiled EvalRates of both back-ends at, next to and far from every bound (stand-in headers trusted). A routine that nests the two comparisons is the same statement (theorem nested_window_is_the_window).",
             "7 C06"),
     "C13": ("Coq proof (list-level characterisation of the overwrite loop; refinement theorem for ODE modifiers) + correspondence + differential oracle incl. the configuration-file path",
             "Theorems in Props/C13.v: a rate modifier replaces exactly the assignments whose reaction index equals its key (last key wins) and re-indexing happens only for fully unindexed networks; an ODE modifier appends its terms to the target equation only; the --rate-modifier / --ode-modifier texts written for a list of modifiers are parsed back to that list (model of `naunet init`); text level (modifier_factor_stays_one_operand, parser_frame, lexer_frame): whatever the factor text is, if it parses on its own as C the emitted row parses with the factor kept together as one operand. Tied to the API (also on networks edited after the modifiers were attached), TemplateLoader.render, Network.export -> `naunet render` and `naunet init` -> TOML.",
